@@ -91,7 +91,14 @@ def main(argv=None):
     plan = mod.plan(a.tier, seed)           # {'cfgs': [...], 'budget': int|None, 'bound': str}
     cfgs = plan["cfgs"]
     budget = plan.get("budget")
-    stats, mism = explore.explore_all(mod.execute, cfgs, budget=budget, workers=a.workers or None)
+    limit = float(os.environ.get("VERIF_MAX_S", "0") or 0) or (1200.0 if a.tier == "quick" else 6 * 3600.0)
+    try:
+        stats, mism = explore.explore_all(mod.execute, cfgs, budget=budget, workers=a.workers or None, deadline=t0 + limit)
+    except explore.Deadline as e:
+        # on the unchanged tree every check finishes far below the limit; a tree on which the exploration explodes
+        # (e.g. a timer that fires without end) behaves differently from the verified one
+        print("VIOLATION property=%s replay=%s clause=%s.terminates shape=exploration-exceeded-%ds :: %s" % (pid, "none", pid, limit, e))
+        return 1
     extra = {}
     if hasattr(mod, "post"):
         # optional second phase owned by the harness (e.g. cross-process comparisons)
